@@ -24,7 +24,7 @@ fn mappings(toks: &[(u32, u32, Option<(u32, u32, u32)>, Option<u32>)]) -> String
 // ------------------------------------------------------------------ C14
 /// Hermes scope lookup and function-map decoding against an independent reading of Metro's format
 pub fn hermes_scope() -> Report {
-    let bound = "function maps with <= 4 entries over lines {1,2,3} x columns {0,2,5} (grouped into ';' groups in every way that keeps a line's entries together or apart), name indices in/out of range; tokens at original (line in 0..3, col in 0..6); 4 three-source maps with null metadata before / between / after function maps and one range token per source, 8 bytecode offsets per source, as decoded and after serialising and decoding again";
+    let bound = "function maps with <= 4 entries over lines {1,2,3} x columns {0,2,5} (grouped into ';' groups in every way that keeps a line's entries together or apart), name indices in/out of range; tokens at original (line in 0..3, col in 0..6); 6 three-source maps with null metadata before / between / after function maps (one function map without names) and one range token per source, 8 bytecode offsets per source, as decoded and after serialising and decoding again";
     let mut cases = 0u64;
     let poss: Vec<(u32, u32)> = (1..=3).flat_map(|l| [0u32, 2, 5].into_iter().map(move |c| (l, c))).collect();
     // choose increasing subsets of size <= 4
@@ -63,9 +63,9 @@ pub fn hermes_scope() -> Report {
         }
     }
     // bytecode offsets on line 0 through a range mapping, null metadata before and after a function map, and the same answers after serialising and decoding again
-    for metas in [vec![Some(0usize), None, Some(1)], vec![None, Some(0), Some(1)], vec![Some(0), Some(1), None], vec![None, None, Some(0)]] {
-        let fms = ["AAA,UCA,UDA", "AAA;KCC"];           // source A: <global>@1:0 foo@1:10 <global>@1:20 ; source B: <global>@1:0 bar@2:5
-        let fnames = [r#"["<global>","foo"]"#, r#"["<global>","bar"]"#];
+    for metas in [vec![Some(0usize), None, Some(1)], vec![None, Some(0), Some(1)], vec![Some(0), Some(1), None], vec![None, None, Some(0)], vec![Some(2), Some(0), None], vec![Some(0), None, Some(2)]] {
+        let fms = ["AAA,UCA,UDA", "AAA;KCC", "AAA"];           // source A: <global>@1:0 foo@1:10 <global>@1:20 ; source B: <global>@1:0 bar@2:5
+        let fnames = [r#"["<global>","foo"]"#, r#"["<global>","bar"]"#, "[]"];   // the third function map has no names: its entry resolves to nothing
         let meta_json: Vec<String> = metas.iter().map(|m| match m { Some(k) => format!(r#"[{{"names":{},"mappings":"{}"}}]"#, fnames[*k], fms[*k]), None => "null".into() }).collect();
         // one range token per source on line 0: generated columns 0, 100, 200 -> original (0,0) of source 0, 1, 2
         let json = format!(r#"{{"version":3,"sources":["s0.js","s1.js","s2.js"],"names":[],"mappings":"AAAA,oGCAA,oGCAA","rangeMappings":"H","x_facebook_sources":[{}]}}"#, meta_json.join(","));
@@ -73,7 +73,7 @@ pub fn hermes_scope() -> Report {
         let smh = match guarded(|| SourceMapHermes::from_slice(json.as_bytes())) { Ok(Ok(m)) => m, o => return r("hermes_scope", bound, cases, Some(format!("from_slice failed for {json}: {:?}", o.map(|x| x.map(|_| ()))))) };
         let mut out = vec![]; smh.to_writer(&mut out).ok();
         let again = match guarded(|| SourceMapHermes::from_slice(&out)) { Ok(Ok(m)) => m, o => return r("hermes_scope", bound, cases, Some(format!("the library does not decode its own Hermes output {}: {:?}", String::from_utf8_lossy(&out), o.map(|x| x.map(|_| ()))))) };
-        let entries: [Vec<(u64, u32, &str)>; 2] = [vec![(1, 0, "<global>"), (1, 10, "foo"), (1, 20, "<global>")], vec![(1, 0, "<global>"), (2, 5, "bar")]];
+        let entries: [Vec<(u64, u32, &str)>; 3] = [vec![(1, 0, "<global>"), (1, 10, "foo"), (1, 20, "<global>")], vec![(1, 0, "<global>"), (2, 5, "bar")], vec![]];
         for src in 0..3u32 { for off in [0u32, 4, 9, 10, 15, 19, 20, 35] {
             let col = src * 100 + off;
             let want = metas[src as usize].and_then(|k| entries[k].iter().filter(|e| (e.0, e.1) <= (1, off)).last().map(|e| e.2.to_string()));
@@ -354,12 +354,13 @@ pub fn hermes_rewrite() -> Report {
 // ------------------------------------------------------------------ C03 / C01
 /// serialised form: keys present / omitted as the property states, mappings read back by the reference decoder
 pub fn raw_keys() -> Report {
-    let bound = "maps with 1..3 sources, contents on every subset, root / file / ignore list present or absent, tokens with and without source / name";
+    let bound = "maps with 1..3 sources, contents on every subset (non-empty or empty-string texts), root / file / ignore list present or absent, tokens with and without source / name";
     let mut cases = 0u64;
-    for nsrc in 1..=3usize { for cmask in 0u32..(1 << nsrc) { for root in [None, Some("r")] { for file in [None, Some("f.js")] { for ignore in [false, true] {
+    for nsrc in 1..=3usize { for cmask in 0u32..(1 << nsrc) { for root in [None, Some("r")] { for file in [None, Some("f.js")] { for ignore in [false, true] { for empty_text in [false, true] {
         cases += 1;
+        let text = |i: usize| if empty_text { String::new() } else { format!("// {i}") };
         let mut b = SourceMapBuilder::new(file);
-        for i in 0..nsrc { let id = b.add_source(&format!("s{i}.js")); if cmask >> i & 1 == 1 { b.set_source_contents(id, Some(&format!("// {i}"))); } }
+        for i in 0..nsrc { let id = b.add_source(&format!("s{i}.js")); if cmask >> i & 1 == 1 { b.set_source_contents(id, Some(&text(i))); } }
         b.add(0, 0, 1, 2, Some("s0.js"), Some("n"), false);
         b.add(0, 4, 0, 0, None, None, false);
         b.add(1, 1, 3, 1, Some(&format!("s{}.js", nsrc - 1)), None, false);
@@ -370,9 +371,9 @@ pub fn raw_keys() -> Report {
         if let Err(e) = sm.to_writer(&mut out) { return r("raw_keys", bound, cases, Some(format!("to_writer: {e}"))); }
         let v: serde_json::Value = match serde_json::from_slice(&out) { Ok(v) => v, Err(e) => return r("raw_keys", bound, cases, Some(format!("output is not JSON: {e}"))) };
         let o = v.as_object().unwrap();
-        let ctx = format!("{nsrc} sources, contents mask {cmask:b}, root {root:?}, file {file:?}, ignore {ignore}");
+        let ctx = format!("{nsrc} sources, contents mask {cmask:b}{}, root {root:?}, file {file:?}, ignore {ignore}", if empty_text { " (contents are empty strings)" } else { "" });
         if o.get("version") != Some(&serde_json::json!(3)) { return r("raw_keys", bound, cases, Some(format!("{ctx}: version is {:?}", o.get("version")))); }
-        let want_sc: Option<Vec<Option<String>>> = if cmask == 0 { None } else { Some((0..nsrc).map(|i| if cmask >> i & 1 == 1 { Some(format!("// {i}")) } else { None }).collect()) };
+        let want_sc: Option<Vec<Option<String>>> = if cmask == 0 { None } else { Some((0..nsrc).map(|i| if cmask >> i & 1 == 1 { Some(text(i)) } else { None }).collect()) };
         let got_sc: Option<Vec<Option<String>>> = o.get("sourcesContent").map(|x| x.as_array().unwrap().iter().map(|y| y.as_str().map(|s| s.to_string())).collect());
         if got_sc != want_sc { return r("raw_keys", bound, cases, Some(format!("{ctx}: sourcesContent is {got_sc:?}, expected {want_sc:?}"))); }
         for (key, present) in [("sourceRoot", root.is_some()), ("file", file.is_some()), ("ignoreList", ignore)] {
@@ -386,14 +387,14 @@ pub fn raw_keys() -> Report {
         let dec = refs::mappings_decode(m, "", nsrc as i128, 1);
         let want = vec![refs::Tok { dl: 0, dc: 0, src: Some((0, 1, 2)), name: Some(0), range: false }, refs::Tok { dl: 0, dc: 4, src: None, name: None, range: false }, refs::Tok { dl: 1, dc: 1, src: Some((nsrc as u32 - 1, 3, 1)), name: None, range: false }];
         if dec != Ok(want.clone()) { return r("raw_keys", bound, cases, Some(format!("{ctx}: mappings {m:?} read back as {dec:?}, expected {want:?}"))); }
-    } } } } }
+    } } } } } }
     r("raw_keys", bound, cases, None)
 }
 
 type T4 = (u32, u32, Option<(u32, u32, u32)>, Option<u32>);
 /// write -> read gives the same tokens (up to exact consecutive duplicates) and fields
 pub fn roundtrip() -> Report {
-    let bound = "token lists of length <= 4 over positions {0,2}x{0,3}, each token sourceless / with source (2 sources, original positions {0,5}) / with name, duplicates allowed; root present / absent / removed / empty string; 32 whole documents (file, partial contents, ignore list, debug id, range token) alone and as a section of an index map next to a Hermes section and a nested index";
+    let bound = "token lists of length <= 4 over positions {0,2}x{0,3}, each token sourceless / with source (2 sources, original positions {0,5}) / with name, duplicates allowed; root present / absent / removed / empty string; 32 whole documents (file, partial contents, ignore list, debug id, range token) alone and as a section of an index map next to a Hermes section, a nested index and an unresolved section with a url (a section with both url and map included); 3 top-level Hermes maps with null metadata and a function map without names";
     let mut cases = 0u64;
     let kinds: Vec<(Option<(u32, u32, u32)>, Option<u32>)> = vec![(None, None), (Some((0, 5, 5)), None), (Some((1, 0, 5)), Some(1)), (Some((0, 0, 0)), Some(0))];
     let pos: Vec<(u32, u32)> = vec![(0, 0), (0, 3), (2, 0), (2, 3)];
@@ -442,17 +443,36 @@ pub fn roundtrip() -> Report {
             // the same map as a section of an index map, next to a Hermes section and a nested index
             let hermes = match decode_slice(hermes_doc.as_bytes()) { Ok(m) => m, Err(e) => return r("roundtrip", bound, cases, Some(format!("hermes fixture: {e}"))) };
             let nested = SourceMapIndex::new(None, vec![SourceMapSection::new((0, 0), None, Some(DecodedMap::Regular(sm.clone())))]);
-            let idx = SourceMapIndex::new(Some("idx.js".into()), vec![SourceMapSection::new((0, 0), None, Some(DecodedMap::Regular(sm.clone()))), SourceMapSection::new((10, 0), None, Some(hermes)), SourceMapSection::new((20, 0), None, Some(DecodedMap::Index(nested)))]);
+            let idx = SourceMapIndex::new(Some("idx.js".into()), vec![SourceMapSection::new((0, 0), Some("https://h/a.js.map".into()), Some(DecodedMap::Regular(sm.clone()))), SourceMapSection::new((10, 0), None, Some(hermes)), SourceMapSection::new((20, 0), None, Some(DecodedMap::Index(nested))), SourceMapSection::new((30, 0), Some("later.map".into()), None)]);
             let mut o2 = vec![]; idx.to_writer(&mut o2).ok();
             let iback = match guarded(|| decode_slice(&o2)) { Ok(Ok(DecodedMap::Index(i))) => i, o => return r("roundtrip", bound, cases, Some(format!("index document {} does not decode as an index map: {:?}", String::from_utf8_lossy(&o2), o.map(|x| x.map(|_| ()).map_err(|e| e.to_string()))))) };
             let kinds: Vec<&str> = iback.sections().map(|s| match s.get_sourcemap() { Some(DecodedMap::Regular(_)) => "regular", Some(DecodedMap::Hermes(_)) => "hermes", Some(DecodedMap::Index(_)) => "index", None => "none" }).collect();
-            if kinds != ["regular", "hermes", "index"] { return r("roundtrip", bound, cases, Some(format!("index map with sections [regular, hermes, index] reads back with sections {kinds:?} (json {})", String::from_utf8_lossy(&o2)))); }
+            if kinds != ["regular", "hermes", "index", "none"] { return r("roundtrip", bound, cases, Some(format!("index map with sections [regular, hermes, index, unresolved] reads back with sections {kinds:?} (json {})", String::from_utf8_lossy(&o2)))); }
+            let urls = |i: &SourceMapIndex| i.sections().map(|s| (s.get_offset(), s.get_url().map(|u| u.to_string()))).collect::<Vec<_>>();
+            if urls(&idx) != urls(&iback) { return r("roundtrip", bound, cases, Some(format!("index map: section (offset, url) {:?} reads back as {:?}", urls(&idx), urls(&iback)))); }
             for (s0, s1) in idx.sections().zip(iback.sections()) { match (s0.get_sourcemap(), s1.get_sourcemap()) {
                 (Some(DecodedMap::Regular(a)), Some(DecodedMap::Regular(b))) => if full(a) != full(b) { return r("roundtrip", bound, cases, Some("regular section of an index map changed on write/read".into())); },
                 (Some(DecodedMap::Hermes(a)), Some(DecodedMap::Hermes(b))) => { for c in [0u32, 3, 5, 9] { if a.get_original_function_name(c) != b.get_original_function_name(c) { return r("roundtrip", bound, cases, Some(format!("Hermes section of an index map: function at offset {c} was {:?}, after write/read {:?}", a.get_original_function_name(c), b.get_original_function_name(c)))); } } },
                 _ => {} } }
             if idx.lookup_token(10, 5).map(|t| t.get_src()) != iback.lookup_token(10, 5).map(|t| t.get_src()) || idx.lookup_token(21, 9).map(|t| t.get_src()) != iback.lookup_token(21, 9).map(|t| t.get_src()) { return r("roundtrip", bound, cases, Some("index lookups change on write/read".into())); }
         } } } }
+    }
+    // top-level Hermes maps: null metadata before / after function maps, a function map without names
+    {
+        use sourcemap::decode_slice;
+        for metas in [r#"[null,[{"names":["<global>","foo"],"mappings":"AAA,GCA"}],[{"names":["<global>","bar"],"mappings":"AAA,KCA"}]]"#,
+                      r#"[[{"names":["<global>","foo"],"mappings":"AAA,GCA"}],null,[{"names":[],"mappings":"AAA"}]]"#,
+                      r#"[[{"names":[],"mappings":"AAA"}],[{"names":["<global>","bar"],"mappings":"AAA,KCA"}],null]"#] {
+            cases += 1;
+            let doc = format!(r#"{{"version":3,"sources":["a.js","b.js","c.js"],"names":[],"mappings":"AAAA,UCAA,UCAA","x_facebook_sources":{metas}}}"#);
+            let h = match guarded(|| decode_slice(doc.as_bytes())) { Ok(Ok(DecodedMap::Hermes(h))) => h, o => return r("roundtrip", bound, cases, Some(format!("Hermes document {doc} does not decode as a Hermes map: {:?}", o.map(|x| x.map(|_| ()).map_err(|e| e.to_string()))))) };
+            let mut out = vec![]; h.to_writer(&mut out).ok();
+            let back = match guarded(|| decode_slice(&out)) { Ok(Ok(DecodedMap::Hermes(h2))) => h2, o => return r("roundtrip", bound, cases, Some(format!("the library does not read its own Hermes output back as a Hermes map: {} -> {:?}", String::from_utf8_lossy(&out), o.map(|x| x.map(|_| ()).map_err(|e| e.to_string()))))) };
+            for c in [0u32, 4, 10, 14, 20, 24, 30] { let (a, b) = (h.get_original_function_name(c).map(|s| s.to_string()), back.get_original_function_name(c).map(|s| s.to_string()));
+                if a != b { return r("roundtrip", bound, cases, Some(format!("Hermes map with metadata {metas}: function at offset {c} is {a:?}, after write/read {b:?}"))); } }
+            let mut out2 = vec![]; back.to_writer(&mut out2).ok();
+            if out != out2 { return r("roundtrip", bound, cases, Some("Hermes map: re-serialising the decoded map changes the bytes".into())); }
+        }
     }
     r("roundtrip", bound, cases, None)
 }
@@ -580,7 +600,7 @@ fn stretches(mut starts: Vec<(P, usize)>) -> Vec<(P, P, usize)> {
 /// `dups`: allow duplicated positions (the statement's "non-empty overlap" clause; see known finding D10)
 pub fn adjust(dups: bool) -> Report {
     let name: &'static str = if dups { "adjust_dups" } else { "adjust" };
-    let bound = "original maps of <= 3 tokens over generated positions {0,1}x{0,3,6} and adjustment maps of <= 3 tokens over original positions {0,1}x{0,2,3,6} with generated displacement {(0,0),(0,+2),(+1,0),(+2,+5),(0,-2),(-1,0),(-1,-2)} wherever the generated position stays >= 0, every order of the adjustment tokens";
+    let bound = "original maps of <= 3 tokens over generated positions {0,1}x{0,3,6} and adjustment maps of <= 3 tokens over original positions {0,1}x{0,2,3,6} with generated displacement {(0,0),(0,+2),(+1,0),(+2,+5),(0,-2),(-1,0),(-1,-2)} wherever the generated position stays >= 0, every order of the adjustment tokens; every 2-token adjustment also with a third token on original line 3 (after every original token)";
     let mut cases = 0u64;
     let mut known: Option<String> = None;
     let opos: Vec<P> = vec![(0, 0), (0, 3), (0, 6), (1, 0), (1, 3)];
@@ -590,6 +610,9 @@ pub fn adjust(dups: bool) -> Report {
     for _ in 0..3 { let mut next = vec![]; for l in &layer { for &p in &opos { if l.last().map_or(false, |q| if dups { *q > p } else { *q >= p }) { continue; } let mut t = l.clone(); t.push(p); next.push(t); } } olists.extend(next.iter().cloned()); layer = next; }
     let mut alists: Vec<Vec<(P, usize)>> = vec![vec![]]; let mut alayer: Vec<Vec<(P, usize)>> = vec![vec![]];
     for _ in 0..2 { let mut next = vec![]; for l in &alayer { for &p in &apos { if l.iter().any(|q| q.0 == p) { continue; } for d in 0..disp.len() { if (p.0 as i32 + disp[d].0) < 0 || (p.1 as i32 + disp[d].1) < 0 { continue; } let mut t = l.clone(); t.push((p, d)); next.push(t); } } } alists.extend(next.iter().cloned()); alayer = next; }
+    // every adjustment list also with one more token on a later original line than any original token (identity displacement)
+    let extra: Vec<Vec<(P, usize)>> = alists.iter().filter(|l| l.len() == 2).map(|l| { let mut t = l.clone(); t.push(((3, 0), 0)); t }).collect();
+    alists.extend(extra);
     for ol in &olists { for al in &alists {
         cases += 1;
         let otoks: Vec<RawToken> = ol.iter().enumerate().map(|(i, &(l, c))| RawToken { dst_line: l, dst_col: c, src_line: 10 + i as u32, src_col: i as u32, src_id: 0, name_id: !0, is_range: i == 1 }).collect();
@@ -713,6 +736,13 @@ pub fn decode_document() -> Report {
         let got_short: Vec<_> = toks.iter().map(|t| (t.0, t.1, t.2)).collect(); let want_short: Vec<_> = wt.iter().map(|t| (t.0, t.1, t.2)).collect();
         if got_short != want_short { return r("decode_document", bound, cases, Some(format!("document {doc}: tokens (line, col, source) {got_short:?}, expected {want_short:?}"))); }
     } }
+    for doc in [r#"{"version":3,"sections":[]}"#, r#"{"version":3,"file":"out.js","sections":[]}"#, r#"{"version":3,"sections":[{"offset":{"line":0,"column":0},"map":{"version":3,"sections":[]}}]}"#] {
+        cases += 1;
+        match guarded(|| decode_slice(doc.as_bytes())) {
+            Ok(Ok(DecodedMap::Index(i))) => { for s in i.sections() { if !matches!(s.get_sourcemap(), Some(DecodedMap::Index(_))) { return r("decode_document", bound, cases, Some(format!("document {doc}: the nested document with an empty 'sections' array is not decoded as an index map"))); } } },
+            o => return r("decode_document", bound, cases, Some(format!("document {doc} has a 'sections' key but is not decoded as an index map: {:?}", o.map(|x| x.map(|m| match m { DecodedMap::Regular(_) => "regular", DecodedMap::Hermes(_) => "hermes", DecodedMap::Index(_) => "index" }).map_err(|e| e.to_string()))))),
+        }
+    }
     // index documents: every section goes through the same kind dispatch (regular / Hermes / nested index), sections come out ordered by offset
     let kinds = [("regular", r#"{"version":3,"sources":["a.js"],"names":[],"mappings":"AAAA"}"#),
                  ("hermes", r#"{"version":3,"sources":["a.js"],"names":[],"mappings":"AAAA","x_facebook_sources":[[{"names":["<global>","foo"],"mappings":"AAA,CCA"}]]}"#),
